@@ -17,7 +17,7 @@ EXPLANATION = (
     "now_or_never) precedes the drain of the flow table; (R4) Drop for Multiplexor signals id 0 and the consumer "
     "returns on 0; (R5) public Multiplexor methods map queue/oneshot closure to Error::Closed.")
 EXPLANATION_ADDED = 'R1 also orders the source dispatch before the drain; R2 requires the flush loop to await recv() until the closed queue is empty; (R6) no await on a bounded application queue is reachable in the wind-down; (R7) the send-loop select arm never holds a dequeued message across an await (cancel safety).'
-EXPLANATION_ADDED2 = ' (R8) ack-failure-stops-handoff (why the accept queue cannot hold up the wind-down); (R9) Close/Ping/Pong/Binary classification, dispatcher call-site constants, the wind-down dispatches what it takes from the source; R1 also requires the dropped-flows queue to be closed.'
+EXPLANATION_ADDED2 = ' (R8) ack-failure-stops-handoff (why the accept queue cannot hold up the wind-down); (R9) Close/Ping/Pong/Binary classification, dispatcher call-site constants, the wind-down dispatches what it takes from the source; R1 also requires the dropped-flows queue to be closed. (R10) a write refused because the stream is closed maps to Err(BrokenPipe) in every io-level write entry point (poll_write, poll_write_vectored, the bridge), never to Ok(n).'
 EXPLANATION = EXPLANATION + " Added while testing against seeded changes: " + EXPLANATION_ADDED + EXPLANATION_ADDED2
 ASSUMPTIONS = ["poll_fn closures are polled by the await that follows their creation",
                "tokio mpsc close()/recv() semantics (clean shutdown) as documented"]
@@ -415,6 +415,9 @@ def check(facts, rep, tier, cfg):
         else:
             rep.bad("C08.R5", "%s/closed-mapping" % root.path, w5, "a closed queue / dropped oneshot in this public method is not reported as Error::Closed")
     rep.floor("C08.R5", "fallible queue operations in public methods", n, 5)
+    # ---- a write on a stream that is closed for writing fails with BrokenPipe in every entry point
+    rep.rule("C08.R10", "every io-level write entry point maps the refusal of the credit take (None: closed for writing) to Err(BrokenPipe), never to Ok(n)")
+    check_refusal_is_broken_pipe(facts, rep, crate, "C08.R10")
 
 
 def source_dispatch_before_eof(effs):
